@@ -176,7 +176,7 @@ pub struct Run {
     sample_seen: u64,
     pub violations: BTreeMap<String, Violation>,
     pub total_violating_cases: u64,
-    known: Vec<Finding>,
+    known: std::sync::Arc<Vec<Finding>>,
     pub tolerated_known: u64,
     pub extra: Map<String, Value>,
     pub assumptions: Vec<String>,
@@ -191,10 +191,10 @@ pub const MAX_SAMPLES: usize = 14;
 
 impl Run {
     pub fn new(id: &str, tier: Tier, seed: u64) -> Run {
-        Run::new_with(id, tier, seed, load_known_findings())
+        Run::new_with(id, tier, seed, std::sync::Arc::new(load_known_findings()))
     }
 
-    pub fn new_with(id: &str, tier: Tier, seed: u64, known: Vec<Finding>) -> Run {
+    pub fn new_with(id: &str, tier: Tier, seed: u64, known: std::sync::Arc<Vec<Finding>>) -> Run {
         Run {
             id: id.to_string(),
             tier,
@@ -224,7 +224,7 @@ impl Run {
     /// A scratch Run used inside generated-case closures: collects violations of one case,
     /// loads nothing, writes nothing.
     pub fn probe(id: &str) -> Run {
-        let mut r = Run::new_with(id, Tier::Quick, 0, Vec::new());
+        let mut r = Run::new_with(id, Tier::Quick, 0, std::sync::Arc::new(Vec::new()));
         r.replay_mode = true;
         r
     }
@@ -304,7 +304,7 @@ impl Run {
                 unknown.push(v);
             }
         }
-        for f in &self.known {
+        for f in self.known.iter() {
             if f.property == self.id && known_seen.contains(&f.sig) {
                 println!("KNOWN-FINDING: property={} {} [sig={}]", self.id, f.what, f.sig);
             }
